@@ -299,7 +299,7 @@ example : (processNick {} 1 Ex.carol (exMsg Ex.carol) exX).queued =
 example : (processNick {} 1 Ex.carol (exMsg Ex.carol) exX).direct = [] := by decide
 -- refused: alice -> bob
 example : (processNick {} 1 Ex.bob (exMsg Ex.bob) exX).direct =
-    [str ":irc.irc 433 alice bob :Nickname is already in use"] := by decide
+    [(str ":irc.irc " ++ Reply.ErrNicknameInUse433 (client := str "alice") (nick := str "bob"))] := by decide
 example : (processNick {} 1 Ex.bob (exMsg Ex.bob) exX).queued = [] := by decide
 
 /-! ## 3. the announcement -/
@@ -445,6 +445,6 @@ example : (handleLine {} 1 (str "NICK carol") exX).queued =
     Map.lookup Ex.carol (handleLine {} 1 (str "NICK carol") exX).w.users =
       some { Ex.uAlice with source := str "carol!~al@h1" } := by decide
 example : (handleLine {} 1 (str "NICK bob") exX).direct =
-      [str ":irc.irc 433 alice bob :Nickname is already in use"] := by decide
+      [(str ":irc.irc " ++ Reply.ErrNicknameInUse433 (client := str "alice") (nick := str "bob"))] := by decide
 
 end Irc.C15
